@@ -147,6 +147,38 @@ func (fc *fctx) call(e *ast.CallExpr, nres int) string {
 			return "(dec_of_N " + fc.expr(e.Args[0]) + ")"
 		}
 		t.fail(e, "strconv.FormatUint with a base other than the constant 10")
+	case "strconv.ParseUint":
+		ok := len(e.Args) == 3
+		for i, want := range []string{"", "10", "64"} {
+			if i > 0 && ok {
+				tv, has := t.info.Types[e.Args[i]]
+				ok = has && tv.Value != nil && constant.ToInt(tv.Value).ExactString() == want
+			}
+		}
+		if !ok {
+			t.fail(e, "strconv.ParseUint with other arguments than (s, 10, 64)")
+		}
+		return fc.bind("Val (parse_uint_go " + fc.expr(e.Args[0]) + ")")
+	case "hex.DecodeString":
+		return fc.bind("Val (hex_decode_go " + fc.expr(e.Args[0]) + ")")
+	case "(big.Int).SetString":
+		if exprText(e.Fun) != "new(…).SetString" || !isConstInt(t, e.Args[1], "10") {
+			t.fail(e, "big.Int.SetString in another form than new(big.Int).SetString(s, 10)")
+		}
+		return fc.bind("Val (big_parse10 " + fc.expr(e.Args[0]) + ")")
+	case "(big.Int).Text":
+		if !isConstInt(t, e.Args[0], "16") {
+			t.fail(e, "big.Int.Text with a base other than 16")
+		}
+		return "(big_text16 " + fc.expr(e.Fun.(*ast.SelectorExpr).X) + ")"
+	case "(base32.Encoding).EncodeToString":
+		if exprText(e.Fun) != "base32.StdEncoding.WithPadding(…).EncodeToString" {
+			t.fail(e, "base32 encoding in another form than StdEncoding.WithPadding(NoPadding)")
+		}
+		if w, ok := e.Fun.(*ast.SelectorExpr).X.(*ast.CallExpr); !ok || len(w.Args) != 1 || exprText(w.Args[0]) != "base32.NoPadding" {
+			t.fail(e, "base32 encoding with padding")
+		}
+		return "(b32_nopad " + fc.expr(e.Args[0]) + ")"
 	case "strings.Split":
 		if tv, ok := t.info.Types[e.Args[1]]; ok && tv.Value != nil && len(constant.StringVal(tv.Value)) == 1 {
 			return fmt.Sprintf("(split %d%%N %s)", constant.StringVal(tv.Value)[0], fc.expr(e.Args[0]))
@@ -234,6 +266,11 @@ func (fc *fctx) call(e *ast.CallExpr, nres int) string {
 	}
 	t.fail(e, "call of %s", exprText(e.Fun))
 	return ""
+}
+
+func isConstInt(t *tr, x ast.Expr, want string) bool {
+	tv, ok := t.info.Types[x]
+	return ok && tv.Value != nil && constant.ToInt(tv.Value).ExactString() == want
 }
 
 func isNilIdent(t *tr, x ast.Expr) bool {
